@@ -365,11 +365,11 @@ SPECS: List[Spec] = [
       lambda n, v, c, w: up(res=(v['res'] + v['a'] * v['b']) & H(n)), 'mul.fj:20', requires='add', n_values=(1, 2, 3, 4, 6)),
     S('hex.mul10', [N(), O('x', 'hex', 'rw')], lambda n, v, c, w: up(x=(v['x'] * 10) & H(n)), 'mul.fj:33', requires='add'),
     S('hex.mul', [N(), O('res', 'hex', 'w'), O('a', 'hex', 'r'), O('b', 'hex', 'r')], lambda n, v, c, w: up(res=(v['a'] * v['b']) & H(n)),
-      'mul.fj:49', requires='add', n_values=(1, 2, 3, 4)),
+      'mul.fj:49', requires='add', n_values=(1, 2, 3, 4, 7, 9, 15, 17)),   # (loop-based: lengths around the powers of two and sixteen too)
     # ---------------------------------------------------------------- hex/div.fj
     # "q,a are hex[:n], while r,b are hex[:nb]. div0 is the bit-address this function will jump to in-case b is zero."
     S('hex.div', [N(), O('nb', 'const', values=nb_near_n), O('q', 'hex', 'w'), O('r', 'hex', 'w', 'nb'), O('a', 'hex', 'r'),
-                  O('b', 'hex', 'r', 'nb'), O('div0', 'label')], div_model, 'div.fj:4', requires='sub,cmp', n_values=(1, 2, 3, 4)),
+                  O('b', 'hex', 'r', 'nb'), O('div0', 'label')], div_model, 'div.fj:4', requires='sub,cmp', n_values=(1, 2, 3, 4, 9)),
     S('hex.idiv', [N(), O('nb', 'const', values=nb_near_n), O('q', 'hex', 'w'), O('r', 'hex', 'w', 'nb'), O('a', 'hex', 'r'),
                    O('b', 'hex', 'r', 'nb'), O('div0', 'label'), O('rem_opt', 'const', values=rem_opt_values)], idiv_model, 'div.fj:74', requires='sub,cmp',
       n_values=(1, 2, 3, 4)),
